@@ -138,7 +138,7 @@ def restrict_case(case, wid):
 # ---- http conversations
 ADVERSARIAL_KINDS = ['badutf8', 'garbage', 'truncated', 'client_reset', 'refused', 'gaierror', 'timeout', 'upstream_reset',
                      'upstream_garbage', 'client_pipe', 'client_oserror', 'eof_now', 'connect_refused', 'two_origins',
-                     'reverse_second', 'huge_header', 'bad_chunk', 'tunnel_abort', 'nul_host', 'upstream_send_err',
+                     'reverse_second', 'connection_options', 'huge_header', 'bad_chunk', 'tunnel_abort', 'nul_host', 'upstream_send_err',
                      'pending_output_teardown', 'lingering_after_upstream_close', 'reverse_short_writes', 'reverse_upstream_never_reads',
                      'plugin_rejects_after_connect', 'plugin_raises_after_connect']
 # multi-step scenarios that are always part of the run (several variants each): the canary arrives AFTER the adversarial
@@ -211,6 +211,12 @@ def adversarial_conv(rng, kind, name, arrive):
         r = b'GET /rev/a HTTP/1.1\r\nHost: localhost\r\n\r\n'
         return dict(base, hosts=['rev.upstream.test'], shared_host=True, client=[r, r, r],
                     upstreams=[dict(respond=[b'HTTP/1.1 200 OK\r\nContent-Length: 2\r\n\r\nok']), dict(respond=[b'HTTP/1.1 200 OK\r\nContent-Length: 2\r\n\r\nok'])])
+    if kind == 'connection_options':
+        # legal request whose Connection header nominates header fields (RFC 7230 6.1), some of which the canaries use
+        opts = rng.choice([b'close, user-agent, host', b'keep-alive, Content-Length, X-Api-Key', b'authorization, user-agent',
+                           b'close, transfer-encoding, host, content-length'])
+        return dict(base, client=[b'GET http://adv.test/x HTTP/1.1\r\nHost: adv.test\r\nUser-Agent: a\r\nX-Api-Key: k\r\nConnection: '
+                                  + opts + b'\r\n\r\n'], upstreams=[dict(respond=ok_resp)])
     if kind == 'huge_header':
         return dict(base, client=[b'GET http://adv.test/x HTTP/1.1\r\nHost: adv.test\r\nX: ' + b'a' * 70000 + b'\r\n\r\n'], upstreams=[dict(respond=ok_resp)])
     if kind == 'bad_chunk':
@@ -459,6 +465,10 @@ def oracle(case, out):
         if j.get('blocked'):
             return ('a socket in blocking/timeout mode was asked to send without a fresh write-readiness report (%s): the call '
                     'blocks the executor loop for the socket timeout (adversarial conversation: %s)' % (j['blocked'][:3], case['adv']))
+        if j.get('flags_changed'):
+            return ('serving these connections changed the configuration shared by every connection of the worker (flags.%s): '
+                    'later and concurrent connections are no longer served as they would be alone (adversarial conversation: %s)'
+                    % (', flags.'.join(j['flags_changed']), case['adv']))
         for name, a in out['alone'].items():
             if a['status'][0] == 'crashed':
                 return 'the executor loop stopped serving canary %s alone: %s' % (name, a['status'][2])
